@@ -24,17 +24,21 @@ PARALLEL = 12
 def floors(tier):
     k = 1 if tier == "quick" else 8
     return {"signatures_checked": 80 * k, "equivalence_pairs": 1500 * k, "mixed_calls": 400 * k, "falsy_kwargs": 300 * k,
-            "mixed_falsy": 100 * k, "dotted_kwargs": 60 * k, "foreign_request_calls": 20 * k}
+            "mixed_falsy": 100 * k, "mixed_calls_with_dict_request": 150 * k, "dotted_kwargs": 60 * k, "foreign_request_calls": 20 * k}
 
 
 def plan(seed, tier):
     n = 10 if tier == "quick" else 100
-    return [{"id": f"flat-{seed}-{i}", "seed": seed * 100003 + i} for i in range(n)]
+    cases = [{"id": f"flat-{seed}-{i}", "seed": seed * 100003 + i} for i in range(n)]
+    # the whole API moved into a proto sub-package (next to a sibling sub-package): nothing about the property changes
+    cases += [{"id": f"flat-sub-{seed}-{i}", "seed": seed * 100003 + 6000 + i, "subpkg": True} for i in range(2 if tier == "quick" else 10)]
+    return cases
 
 
 def build_api(case):
     rng = random.Random(case["seed"])
-    return apigen.flat_api(rng, "f%d" % (case["seed"] % 100000))
+    api = apigen.flat_api(rng, "f%d" % (case["seed"] % 100000))
+    return apigen.into_subpackage(api) if case.get("subpkg") else api
 
 
 def reserved_names():
@@ -185,7 +189,7 @@ def run_case(case):
                         "req_type": m.input_type.lstrip("."), "params": [pn for _, _, pn in params], "trials": trials,
                         "mixed": mixed, "base_request": rdm.b64(base.SerializeToString()),
                         "foreign": not m.input_type.lstrip(".").startswith(pkg + ".")})
-    script = {"root_pkg": apigen.lib_root(api.info, api.options), "methods": methods}
+    script = {"root_pkg": apigen.runner_root(api), "methods": methods}
     ev, rc, err = pipeline.run_runner("checks.c05", script, lib, timeout=400)
     if ev is None or "runner_crash" in ev or "library_import_error" in ev:
         return pipeline.runner_failed_result(ev, rc, err, api)
@@ -242,7 +246,9 @@ def run_case(case):
                 bump("mixed_calls")
                 if t["meta"][2] != "truthy":
                     bump("mixed_falsy")
-                mech = {"client": kind, "value_class": t["meta"][2], "kind": t["meta"][1]}
+                mech = {"client": kind, "value_class": t["meta"][2], "kind": t["meta"][1], "request_form": o.get("request_form")}
+                if o.get("request_form") == "dict":
+                    bump("mixed_calls_with_dict_request")
                 if (o.get("error") or {}).get("type") != "ValueError":
                     bad("mixed-call-not-rejected", rpc, {"client": kind, "meta": t["meta"], "outcome": o.get("error") or "returned"}, **mech)
                 if o["server_calls"] != 0:
@@ -261,8 +267,16 @@ def in_runner(script):
     import inspect
     from vlib import rt
     from vlib.rdm import decode_py
+    import copy
     lib = rt.Lib(script["root_pkg"])
     srv = rt.GrpcServer()
+
+    def as_request_dict(obj):
+        """The request as the dict a caller would write (proto-plus to_dict / MessageToDict for pb2 request types)."""
+        if hasattr(type(obj), "to_dict"):
+            return type(obj).to_dict(obj, use_integers_for_enums=True, including_default_value_fields=False)
+        from google.protobuf import json_format
+        return json_format.MessageToDict(obj, preserving_proto_field_name=True)
 
     def materialise(x):
         if isinstance(x, dict):
@@ -306,16 +320,24 @@ def in_runner(script):
                 o["payloads"] = [x for ev in srv.since(mark) for x in ev["requests"]]
                 tr[form] = o
             r["trials"].append(tr)
-        for t in mth["mixed"]:
+        for ti, t in enumerate(mth["mixed"]):
             mark = srv.mark()
             o = {}
             reqobj = lib.mk(mth["req_type"], rt.unb64(mth["base_request"]))
+            as_dict = ti % 2 == 1          # a request may be given as a dict: that is "a request" too
+            if as_dict:
+                reqobj = as_request_dict(reqobj)
+                before = copy.deepcopy(reqobj)
             try:
                 fn(request=reqobj, **{k: materialise(v) for k, v in t["kwargs"].items()})
             except BaseException as e:  # noqa
                 o["error"] = rt.exc_info(e)
             o["server_calls"] = len(srv.since(mark))
-            o["request_unchanged"] = rt.ser(reqobj)[1] == rt.b64(rt.unb64(rt.ser(lib.mk(mth["req_type"], rt.unb64(mth["base_request"])))[1]))
+            o["request_form"] = "dict" if as_dict else "message"
+            if as_dict:
+                o["request_unchanged"] = reqobj == before
+            else:
+                o["request_unchanged"] = rt.ser(reqobj)[1] == rt.b64(rt.unb64(rt.ser(lib.mk(mth["req_type"], rt.unb64(mth["base_request"])))[1]))
             r["mixed"].append({"sync": o})
         results.append(r)
 
@@ -339,16 +361,24 @@ def in_runner(script):
                         o["error"] = rt.exc_info(e)
                     o["payloads"] = [x for ev in srv.since(mark) for x in ev["requests"]]
                     tr[form] = o
-            for t, tr in zip(mth["mixed"], r["mixed"]):
+            for ti, (t, tr) in enumerate(zip(mth["mixed"], r["mixed"])):
                 mark = srv.mark()
                 o = {}
                 reqobj = lib.mk(mth["req_type"], rt.unb64(mth["base_request"]))
+                as_dict = ti % 2 == 1
+                if as_dict:
+                    reqobj = as_request_dict(reqobj)
+                    before = copy.deepcopy(reqobj)
                 try:
                     await fn(request=reqobj, **{k: materialise(v) for k, v in t["kwargs"].items()})
                 except BaseException as e:  # noqa
                     o["error"] = rt.exc_info(e)
                 o["server_calls"] = len(srv.since(mark))
-                o["request_unchanged"] = rt.ser(reqobj)[1] == rt.ser(lib.mk(mth["req_type"], rt.unb64(mth["base_request"])))[1]
+                o["request_form"] = "dict" if as_dict else "message"
+                if as_dict:
+                    o["request_unchanged"] = reqobj == before
+                else:
+                    o["request_unchanged"] = rt.ser(reqobj)[1] == rt.ser(lib.mk(mth["req_type"], rt.unb64(mth["base_request"])))[1]
                 tr["async"] = o
 
     asyncio.run(amain())
